@@ -26,7 +26,7 @@ def c15FirstDiff (a b : Array Nat) : Option Nat := Id.run do
     if a[k]! != b[k]! then return some k
   return none
 
-def checkC15 (l : Line) : Verdict :=
+def checkC15One (l : Line) : Verdict :=
   let rm : Ppu.Regs := { lcdc := l.inN "lcdc", scx := l.inN "scx", scy := l.inN "scy", wx := l.inN "wx",
                          wy := l.inN "wy", bgp := l.inN "bgp", obp0 := l.inN "obp0", obp1 := l.inN "obp1" }
   let rs : FrameSpec.Regs := { lcdc := rm.lcdc, scx := rm.scx, scy := rm.scy, wx := rm.wx, wy := rm.wy,
@@ -60,5 +60,75 @@ def checkC15 (l : Line) : Verdict :=
               | none =>
                 -- non-trivial: more than one shade on screen
                 .ok (impl.any (· != impl[0]!))
+
+/-! ### `c15.seq`: several frames on one machine -/
+
+def c15Shade (d : Nat) : Nat := if d == 0 then 255 else if d == 1 then 170 else if d == 2 then 85 else 0
+
+/-- `fz<f>` (one hex digit = two pixels as shade indices) or `frame<f>` (plain hex) -/
+def c15Frame (l : Line) (f : Nat) : Array Nat :=
+  let z := l.outS s!"fz{f}"
+  if z != "" then Id.run do
+    let mut out : Array Nat := Array.mkEmpty (2 * z.length)
+    for c in z.toList do
+      let d := hexDigit c
+      out := (out.push (c15Shade (d / 4))).push (c15Shade (d % 4))
+    return out
+  else parseBytes (l.outS s!"frame{f}")
+
+def c15Regs (l : Line) (f : Nat) : Ppu.Regs :=
+  { lcdc := l.inN s!"lcdc{f}", scx := l.inN s!"scx{f}", scy := l.inN s!"scy{f}", wx := l.inN s!"wx{f}",
+    wy := l.inN s!"wy{f}", bgp := l.inN s!"bgp{f}", obp0 := l.inN s!"obp0{f}", obp1 := l.inN s!"obp1{f}" }
+
+def checkC15Seq (l : Line) : Verdict := Id.run do
+  let nf := l.inN "nf"
+  if nf == 0 || nf > 8 then return .bad s!"nf={nf}"
+  if l.outS "panic" != "" then
+    return .specDiff s!"implementation panicked ({l.outS "panic"}); spec defines every frame"
+  let mut vram : Array Nat := #[]
+  let mut oam : Array Nat := #[]
+  let mut st : Except Ppu.Panic Ppu.State := .error .oob
+  let mut nontrivial := false
+  let mut modelMsg : Option String := none
+  for f in [0:nf] do
+    let rm := c15Regs l f
+    let vramOld := vram
+    let oamOld := oam
+    if l.inS s!"vram{f}" != "" then vram := parseBytes (l.inS s!"vram{f}")
+    oam := parseBytes (l.inS s!"oam{f}")
+    if vram.size != 8192 || oam.size != 160 then return .bad s!"frame {f}: vram/oam size {vram.size}/{oam.size}"
+    if rm.lcdc % 2 != 1 || rm.lcdc / 128 % 2 != 1 then return .bad "LCDC bits 7 and 0 must be set"
+    let impl := c15Frame l f
+    if impl.size != 23040 then return .bad s!"frame {f} size {impl.size}"
+    -- the model, carried on from the previous frame
+    st := if f == 0 then Ppu.renderFirst rm vram oam
+          else match st with
+            | .ok s => Ppu.renderNext s rm vramOld oamOld vram oam (l.inN s!"vb{f}" / 4)
+            | .error e => .error e
+    let rs : FrameSpec.Regs := { lcdc := rm.lcdc, scx := rm.scx, scy := rm.scy, wx := rm.wx, wy := rm.wy,
+                                 bgp := rm.bgp, obp0 := rm.obp0, obp1 := rm.obp1 }
+    let v := vram
+    let o := oam
+    match c15SpecDiff rs (fun a => v[a]!) (fun a => o[a]!) impl with
+    | some (x, ly, sp, i) =>
+      let m := match st with
+        | .ok s => s!"{s.visible[ly * 160 + x]!}"
+        | .error _ => "panic"
+      return .specDiff s!"frame={f} pixel x={x} ly={ly} spec={sp} impl={i} model={m}"
+    | none => pure ()
+    if modelMsg.isNone then
+      match st with
+      | .error _ => modelMsg := some s!"frame={f}: model panics, implementation does not"
+      | .ok s =>
+        match c15FirstDiff s.visible impl with
+        | some k => modelMsg := some s!"frame={f} pixel x={k % 160} ly={k / 160} model={s.visible[k]!} impl={impl[k]!}"
+        | none => pure ()
+    if impl.any (· != impl[0]!) then nontrivial := true
+  match modelMsg with
+  | some m => return .modelDiff m
+  | none => return .ok nontrivial
+
+def checkC15 (l : Line) : Verdict :=
+  if l.stream == "c15.seq" then checkC15Seq l else checkC15One l
 
 end Driver
